@@ -764,6 +764,25 @@ func (w *World) verifyFunc(con *Contract) (fr *FuncResult) {
 	for _, tn := range con.StableTypes {
 		t := w.resolveType(tn, con.Pkg)
 		if t == nil {
+			// Type.field: one field of a struct type
+			if i := strings.LastIndex(tn, "."); i > 0 {
+				if bt := w.resolveType(tn[:i], con.Pkg); bt != nil {
+					if st, ok := bt.Underlying().(*types.Struct); ok {
+						found := false
+						for k := 0; k < st.NumFields(); k++ {
+							if st.Field(k).Name() == tn[i+1:] {
+								found = true
+							}
+						}
+						if found {
+							e.stablePrefixes = append(e.stablePrefixes, structFam(bt, tn[i+1:]))
+							continue
+						}
+					}
+				}
+			}
+		}
+		if t == nil {
 			e.abort("stable-types: unknown type %s", tn)
 		}
 		if mt, ok := t.Underlying().(*types.Map); ok {
